@@ -488,8 +488,13 @@ def objdump_pe_check(path, R):
     return pr
 
 
+PESEC_ROWS = []
+FAT_ROWS = []
+
+
 def pe_part(run, quick):
     from amoco.system import pe
+    del PESEC_ROWS[:]
     rng = random.Random(run.seed * 104729 + 14)
     rows = []
     items = []
@@ -528,6 +533,15 @@ def pe_part(run, quick):
             run.violation("pe|raised|" + type(x).__name__, "PE() raised %r on a structurally valid image (%s %s)" % (x, src, desc),
                           {"format": "pe", "image": img.hex() if len(img) < 40000 else None, "file": src})
             continue
+        if src == "synth" and len(PESEC_ROWS) < (120 if quick else 1200):
+            # what amoco read as the section table, for the Gallina model of its location (coq/C14/Containers.v)
+            end = R["e_lfanew"] + 24 + R["coff"]["SizeOfOptionalHeader"] + 40 * R["coff"]["NumberOfSections"]
+            try:
+                obs = [[int.from_bytes(bytes(x.Name).ljust(8, b"\0")[:8], "little"), x.VirtualSize, x.RVA, x.SizeOfRawData, x.PointerToRawData, x.PointerToRelocations,
+                        x.PointerToLineNumbers, x.NumberOfRelocations, x.NumberOfLineNumbers, x.Characteristics] for x in p.sections]
+                PESEC_ROWS.append("(%s, %s)" % (blist(img[:end]), clist([clist(map(zlit, o)) for o in obs])))
+            except Exception:
+                pass
         diffs, queries = pe_compare(R, p, rng)
         for key, detail in diffs[:3]:
             run.violation(key, detail + " [%s %s]" % (os.path.basename(src), desc), {"format": "pe", "image": img.hex() if len(img) < 40000 else None, "file": src})
@@ -624,6 +638,7 @@ def macho_part(run, quick):
     rng = random.Random(run.seed * 1299709 + 14)
     rows = []
     items = []
+    del FAT_ROWS[:]
     for n in range(150 if quick else 3000):
         s = FG.SynthMachO(rng)
         items.append(("synth", s.image, s.describe()))
@@ -665,6 +680,12 @@ def macho_part(run, quick):
         if got != ents:
             run.violation("macho|fat|arch-table", "fat architecture table read as %s, the file encodes %s" % (got, ents), rep)
             continue
+        if len(fat) < 14000 and len(FAT_ROWS) < (10 if quick else 60):
+            try:
+                heads = [list(struct.pack("<Ii", a.bin.header.magic, a.bin.header.cputype)) for a in p.archs]
+                FAT_ROWS.append("(%s, %s, %s)" % (blist(fat), clist([clist(map(zlit, g)) for g in got]), clist([clist(map(str, h)) for h in heads])))
+            except Exception:
+                pass
         for a, t in zip(p.archs, thins):
             R = FG.read_macho(t)
             diffs, _q = macho_compare(R, a.bin, rng)
@@ -867,13 +888,16 @@ def check(run):
     shard("hexline", hexrows, "list Z * option (Z * Z * Z * list Z)", "check_hexline", 300)
     shard("srecline", srecrows, "list Z * option (Z * Z * list Z)", "check_srecline", 300)
     shard("hexfile", filerows, "list (Z * Z * Z) * list Z", "check_hexfile", 300)
+    hdr = hdr.replace("Require Import Amoco.C14.Model.", "Require Import Amoco.C14.Model Amoco.C14.Containers.")
+    shard("pesec", PESEC_ROWS, "list Z * list (list Z)", "check_pesec", 40)
+    shard("fat", FAT_ROWS, "list Z * list (list Z) * list (list Z)", "check_fat", 4)
     res = common.coq_eval_many(run.work / "misc", [(n, t) for n, t, _, _ in texts])
     ok = 0
     for n, t, kind, base in texts:
         rc, out = res[n]
         lists = common.parse_nat_list(out)
         if rc != 0 or len(lists) != 1:
-            run.violation("model-eval|" + kind, "%s model evaluation failed" % kind, {"theorem_or_correspondence": "Amoco.C14.Model.check_%s (%s)" % (kind, n),
+            run.violation("model-eval|" + kind, "%s model evaluation failed" % kind, {"theorem_or_correspondence": "Amoco.C14.%s.check_%s (%s)" % ("Containers" if kind in ("pesec", "fat") else "Model", kind, n),
                                                                                         "output": out[-800:]}, found_input=False)
             continue
         ok += t.count(";\n") + 1
